@@ -22,6 +22,9 @@ func ite[T any](c bool, a, b T) T {
 // res stands for the i-th result of the function under contract.
 func res[T any](i int) T { var z T; return z }
 
+// arg[T](k): in an at-call clause, the k-th argument of the call (receiver first for method calls).
+func arg[T any](i int) T { var z T; return z }
+
 // quantifier variables
 var qi, qj, qk int
 
@@ -65,6 +68,9 @@ func bufValid(b any) bool { return b != nil }
 // bufSmall(b): bufValid and, additionally, capacity and growth increments below 2^26 bytes
 // (the precondition of every serialiser: an assumption about memory size, not about the code).
 func bufSmall(b any) bool { return b != nil }
+
+// holdsFunc(x, "pkg.Func"): x is (an interface wrapping a function-typed value equal to) that function.
+func holdsFunc(x any, name string) bool { return x != nil }
 
 // sends(): ghost counter of datagrams handed to transport.Send so far.
 func sends() int { return 0 }
